@@ -5,6 +5,18 @@ HERE = os.path.dirname(os.path.dirname(os.path.abspath(__file__)))
 ALL = ['C%02d' % i for i in range(1, 21)]
 
 CHECKS = {
+ 'C01': dict(cat='model_checking', engine='mirsym',
+   text='For every login and world message (all versions/expansions) and every covered control shape (branch choices, optional present/absent, array counts and string lengths up to the stated bounds, mask patterns) the real read_inner -> write_into_vec -> size functions are executed symbolically on the compiler\'s MIR over the canonical encoding produced by an independent reader of the wowm sources, with every field value a free bit-vector; z3 decides acceptance on every feasible path, byte-for-byte equality of the re-encoding and the declared size. Every message is re-verified on every run.',
+   note='Trusts the MIR interpreter and its std models (vf/models.py), the independent wowm reader/encoder (vf/wowm.py, vf/encode.py) and the C15 contract for DateTime. Bounds: counts/lengths <= 2 (quick) / 3 (thorough), shapes per message capped (one-factor + seeded random coverage). Not covered: UpdateMask members (C13), compressed messages/arrays (zlib), AddonArray. Counterexamples are replayed through the public opcode-enum readers/writers of the native dev and release builds.',
+   technique='symbolic execution of rustc MIR into SMT (z3), concolic path coverage, per message and shape', ref='DESIGN.md 4/C01'),
+ 'C04': dict(cat='model_checking', engine='mirsym',
+   text='(a) For every enum-typed member of every message the member bytes of a canonical encoding are replaced by a symbolic value of the full wire width outside the declared set; z3 decides that every feasible path of the real read_inner returns the enum error carrying exactly that value. (b) Every constant-sized world message is executed with a symbolic body size != N and with N+-1 byte bodies and must return InvalidSize. (c) The six opcode dispatchers are executed with a symbolic opcode outside the wowm-defined set and must return the opcode error carrying that opcode.',
+   note='Same trusted base as C01. Hosts: the first covered shape that can host an undeclared value per member (array elements collapsed to one representative). The typed expect_* helpers are covered by C02.',
+   technique='symbolic execution of rustc MIR into SMT (z3): all undeclared wire values / sizes / opcodes at once', ref='DESIGN.md 4/C04'),
+ 'C09': dict(cat='model_checking', engine='mirsym',
+   text='The set of body sizes accepted by the guard compiled into every world decoder is extracted by executing read_inner with a symbolic body_size (path conditions of the InvalidSize exits); z3 decides that it contains the true minimal and maximal encoded length computed over the whole conditional structure of the wowm definition (counts and string lengths in their full type ranges, no unrolling), that a single-size guard equals the only possible length, and that the length of every covered canonical shape is accepted.',
+   note='Only the compiled guard is compared: the IR sizes object and the docs are not produced in this snapshot (generator aborts). Arrays with 32-bit counts / endless arrays and SizedCString use the implementation limits as stated assumptions. Login messages have no guard.',
+   technique='MIR symbolic execution for the guard set + z3 queries against interval-exact lengths', ref='DESIGN.md 4/C09'),
  'C11': dict(cat='model_checking', engine='mirsym',
    text='Every conversion (from_int and TryFrom<u8..i64,usize>), as_int and variants() of every public enum (world: 3 expansions, login: 6 versions) is executed symbolically on the compiler\'s MIR with the argument a free bit-vector of the full source width; z3 decides agreement with the (name, value) list read independently from the wowm sources. No sampling of values or of definitions.',
    note='Trusts the MIR interpreter (vf/mirsym.py) and its std models, the independent wowm reader (vf/wowm.py), and the rule "variant i <-> enumerator i". Counterexamples are replayed on the native dev and release builds through the public API before being reported.',
